@@ -28,6 +28,7 @@ Variable max : N.
 Variable aptx : bool.
 Variable vis : path -> bool.
 Variable pol : bool -> N -> path -> option E.
+Variable polv : N -> bool -> N -> path -> option E.
 
 Notation state := (state E).
 Notation nbr := (nbr E).
@@ -35,7 +36,7 @@ Notation nbr := (nbr E).
 Definition view (s : state) : list (key * E) := n_mirror (s_nbr s).
 
 Definition fresh (s : state) : list (key * E) :=
-  mirror_reach E (snd (dump E keying_ limited max aptx vis pol (s_llgr s) (s_rib s))) [].
+  mirror_reach E (snd (dump E keying_ limited max aptx vis (polv (s_pv s)) (s_llgr s) (s_rib s))) [].
 
 (* maps are compared by lookup: iteration order of the hash maps is not specified *)
 Definition same_routes (a b : list (key * E)) : Prop := forall k, kfind k a = kfind k b.
@@ -125,6 +126,7 @@ Definition truthful (fl : list N) (r : rib) (l : label) : Prop :=
       (forall q, In q paths -> p_mark q = memN (p_src q) fl)
   | RibFree net false => old_paths net r = []
   | LlgrMark src rs => truthful_sets (set_llgr src fl) r rs
+  | PolicyChange _ => False  (* a policy change during the session is outside the theorems *)
   | LlgrFlip src b =>        (* a bare flip that flips nothing *)
       (if b then set_llgr src fl else filter (fun x => negb (x =? src)) fl) = fl
   | _ => True
@@ -140,7 +142,7 @@ Definition ok_label (s : state) (l : label) : Prop :=
 Fixpoint ok_run (s : state) (ls : list label) : Prop :=
   match ls with
   | [] => True
-  | l :: t => ok_label s l /\ ok_run (step E keying_ limited max aptx vis pol s l) t
+  | l :: t => ok_label s l /\ ok_run (step E keying_ limited max aptx vis polv s l) t
   end.
 
 (* Known-finding class over whole histories *)
@@ -148,14 +150,14 @@ Fixpoint Known_C01_refresh_race (s : state) (ls : list label) : Prop :=
   match ls with
   | [] => False
   | l :: t => refresh_race_label s l \/
-              Known_C01_refresh_race (step E keying_ limited max aptx vis pol s l) t
+              Known_C01_refresh_race (step E keying_ limited max aptx vis polv s l) t
   end.
 
 Fixpoint truthful_run (s : state) (ls : list label) : Prop :=
   match ls with
   | [] => True
   | l :: t => truthful (s_llgr s) (s_rib s) l /\
-              truthful_run (step E keying_ limited max aptx vis pol s l) t
+              truthful_run (step E keying_ limited max aptx vis polv s l) t
   end.
 
 (* contract of [pol]: the LLGR_STALE marking is applied to an accepted route, it does not
